@@ -1,4 +1,4 @@
-(** GoSem: the reading of Go's integer / bool / fixed-array semantics against which
+(** GoSem: the reading of Go's integer / bool / fixed-array / byte-slice semantics against which
     harness/translate/main.go emits [Translated.v].
 
     WHAT THIS IS FOR.  The models under coq/theories/{Can,Descriptor,Socketcan} are written by
@@ -10,9 +10,10 @@
     A semantic change of a translated function therefore breaks a proof obligation on that run,
     whether or not the sampled correspondence run happens to hit a failing input.
 
-    TRUSTED BASE ADDED BY THIS TIE (exactly two things; nothing else is new):
+    TRUSTED BASE ADDED BY THIS TIE (exactly two things; nothing else is new; the floating-point
+    part of (2) is in Translate/GoSemFloat.v):
 
-    (1) THE TRANSLATOR, harness/translate/main.go - an unverified Go program (~1500 lines).  It is
+    (1) THE TRANSLATOR, harness/translate/main.go - an unverified Go program (~2200 lines).  It is
         trusted to print the function it read: the statement/expression subset listed in its file
         header, the static type of every expression as reported by go/types (so the typing rules of
         the Go specification, incl. the rule for untyped constant operands of non-constant shifts,
@@ -56,7 +57,43 @@
             a function without results returns the final value of the one pointer parameter it
             writes through (no aliasing is possible: at most one written pointer per function);
           - an [error] result is reduced to [err_nil] / [err_nonnil] ([fmt.Errorf(...)] is
-            [err_nonnil]; its arguments are ignored).
+            [err_nonnil]; its arguments are ignored);
+          - a function with several results returns the tuple of them; a function that has results
+            AND writes through its one pointer parameter returns (final value of that parameter,
+            results...); struct fields promoted through EMBEDDED struct fields are the nested
+            field ([x.f] is [x.E.f], the path is go/types' [Selection.Index]);
+          - a [[]byte] is the [list Z] of its bytes: length and contents only.  NOT modelled:
+            capacity, the nil / empty distinction ([bytes_nil] is [[]]; a function whose result
+            distinguishes them is tied up to that identification), and ALIASING in general.  The
+            one aliasing pattern that is accepted is written out as a functional update of the
+            variable at the root: [b[i] = v] is [bytes_set], [nlenc.PutXxx(b[lo:hi], v)] (a store
+            THROUGH the sub-slice, which shares b's array) is [nlenc_PutXxx b lo v], and
+            [copy(a[lo:hi], src)] is [bytes_copy_at a lo hi src]; the translator accepts slice
+            expressions only with CONSTANT bounds, only as operands of these statements, of [len],
+            of the nlenc readers, of [copy]'s source and as returned values, so no second live
+            reference to a written array exists inside a translated function.
+            [make([]byte, n)] (constant n) is n zero bytes; [len] is the length.
+            SLICE-BOUND AND INDEX PANICS ARE NOT MODELLED: [bytes_slice b lo hi] past the end is
+            the shorter list, [bytes_get] past the end is 0, [bytes_set]/[nlenc_PutXxx] past the
+            end change nothing/only the bytes that exist (Go panics in all these cases; the hand
+            models of Netlink/Layout.v do model them, as [OutOfBounds], and the T_ lemmas of group
+            netlink show that outcome never arises);
+          - package github.com/mdlayher/netlink/nlenc stores and loads integers in HOST byte order
+            through an unsafe pointer; amd64 (and every other port this development considers) is
+            LITTLE-ENDIAN: [nlenc.PutUint16/32/64(b, v)] write the 2/4/8 little-endian bytes of v
+            ([le_byte v k] = bits 8k..8k+7 of the two's-complement word), [nlenc.PutInt32] those of
+            the int32's bit pattern [wrap_u 32 v], [nlenc.Uint8/16/32/64(b)] read them back,
+            [nlenc.Int32] reinterprets the 32-bit word as int32.  These functions PANIC unless
+            [len b] is exactly 1/2/4/8: for a constant sub-slice the translator checks the length
+            statically (and rejects the program otherwise); for any other argument the panic is not
+            modelled (the readers then yield 0);
+          - a slice whose element type is outside the subset (e.g. [[]*ValueDescription]) is kept
+            as its LENGTH only ([go_len], a non-negative integer; the only operation is [len]);
+          - a [string] is the [list Z] of its bytes (only constants, locals and results; no
+            operations);
+          - [go/types.Typ[k]] (the table of predeclared basic types indexed by [types.BasicKind]) is
+            represented by the kind [k] itself ([go_types_Typ]); named constants of a defined type
+            such as [types.Float32] are printed as their value with the name as a comment.
 
     What is NOT trusted: the hand-written models (they are now checked against (1)+(2) by Equiv.v
     for all inputs), and Equiv.v itself (kernel-checked, no axioms).
@@ -115,3 +152,57 @@ Definition in_data (n : Z) (d : data) : Prop :=
 Definition err := bool.
 Definition err_nil : err := true.
 Definition err_nonnil : err := false.
+
+(** * Byte slices ([]byte): contents only *)
+Definition go_bytes := list Z.
+Definition bytes_nil : go_bytes := [].
+Definition bytes_len (b : go_bytes) : Z := Z.of_nat (length b).
+Definition bytes_make (n : Z) : go_bytes := repeat 0 (Z.to_nat n).
+Definition bytes_get (b : go_bytes) (i : Z) : Z := nth (Z.to_nat i) b 0.
+Definition bytes_set (b : go_bytes) (i v : Z) : go_bytes := list_set (Z.to_nat i) v b.
+(** [b[lo:hi]] *)
+Definition bytes_slice (b : go_bytes) (lo hi : Z) : go_bytes :=
+  firstn (Z.to_nat hi - Z.to_nat lo) (skipn (Z.to_nat lo) b).
+(** overwrite [b] from offset [lo] with the bytes [src] (as far as [b] reaches) *)
+Fixpoint list_splice (n : nat) (src b : list Z) : list Z :=
+  match n, b with
+  | _, [] => []
+  | O, h :: t => match src with [] => h :: t | s :: src' => s :: list_splice O src' t end
+  | S n', h :: t => h :: list_splice n' src t
+  end.
+Definition bytes_splice (b : go_bytes) (lo : Z) (src : list Z) : go_bytes := list_splice (Z.to_nat lo) src b.
+(** [copy(a[lo:hi], src)]: min(hi-lo, len src) bytes *)
+Definition bytes_copy_at (a : list Z) (lo hi : Z) (src : go_bytes) : list Z :=
+  bytes_splice a lo (firstn (Z.to_nat hi - Z.to_nat lo) src).
+
+(** * github.com/mdlayher/netlink/nlenc on a little-endian host *)
+(** byte k (k = 0 least significant) of the two's-complement word v *)
+Definition le_byte (v k : Z) : Z := Z.land (Z.shiftr v (8 * k)) 255.
+Definition le_bytes2 (v : Z) : list Z := [le_byte v 0; le_byte v 1].
+Definition le_bytes4 (v : Z) : list Z := [le_byte v 0; le_byte v 1; le_byte v 2; le_byte v 3].
+Definition le_bytes8 (v : Z) : list Z :=
+  [le_byte v 0; le_byte v 1; le_byte v 2; le_byte v 3; le_byte v 4; le_byte v 5; le_byte v 6; le_byte v 7].
+Definition nlenc_PutUint8 (b : go_bytes) (lo v : Z) : go_bytes := bytes_splice b lo [le_byte v 0].
+Definition nlenc_PutUint16 (b : go_bytes) (lo v : Z) : go_bytes := bytes_splice b lo (le_bytes2 v).
+Definition nlenc_PutUint32 (b : go_bytes) (lo v : Z) : go_bytes := bytes_splice b lo (le_bytes4 v).
+Definition nlenc_PutUint64 (b : go_bytes) (lo v : Z) : go_bytes := bytes_splice b lo (le_bytes8 v).
+Definition nlenc_PutInt32 (b : go_bytes) (lo v : Z) : go_bytes := bytes_splice b lo (le_bytes4 (wrap_u 32 v)).
+Definition nlenc_Uint8 (b : go_bytes) : Z := match b with [b0] => b0 | _ => 0 end.
+Definition nlenc_Uint16 (b : go_bytes) : Z := match b with [b0; b1] => b0 + 256 * b1 | _ => 0 end.
+Definition nlenc_Uint32 (b : go_bytes) : Z :=
+  match b with [b0; b1; b2; b3] => b0 + 256 * b1 + 65536 * b2 + 16777216 * b3 | _ => 0 end.
+Definition nlenc_Uint64 (b : go_bytes) : Z :=
+  match b with
+  | [b0; b1; b2; b3; b4; b5; b6; b7] =>
+      b0 + 256 * b1 + 65536 * b2 + 16777216 * b3 + 2 ^ 32 * (b4 + 256 * b5 + 65536 * b6 + 16777216 * b7)
+  | _ => 0
+  end.
+(** the 32-bit word (0 <= u < 2^32, the elements being bytes) read as two's complement *)
+Definition nlenc_Int32 (b : go_bytes) : Z :=
+  let u := nlenc_Uint32 b in if u <? 2 ^ 31 then u else u - 2 ^ 32.
+
+(** * Slices kept as their length; strings; go/types.Typ *)
+Definition go_len := Z.
+Definition go_string := list Z.
+Definition go_basic_type := Z.
+Definition go_types_Typ (kind : Z) : go_basic_type := kind.
